@@ -1,18 +1,27 @@
 #!/bin/bash
-# Builds the Coq development (full .vo build), runs extraction, builds the OCaml model driver.
+# build_model.sh <group>: builds the Coq models the group's extraction file needs (full .vo build), runs the
+# extraction coq/Extract/Ex_<group>.v into ocaml/gen_<group>/, and builds ocaml/bin/um_model_<group>.
 set -e
+G=$1
+[ -n "$G" ] || { echo "usage: build_model.sh <group>"; exit 2; }
+mkdir -p /verif/work
+/verif/tools/gen_coqproject.sh
 cd /verif/coq
-[ -f Makefile ] && [ Makefile -nt _CoqProject ] || coq_makefile -f _CoqProject -o Makefile >/dev/null
-timeout 3000 make -j16 "$@" > /verif/work/coq_build.log 2>&1 || { tail -40 /verif/work/coq_build.log; exit 1; }
+DEPS=$(coqdep -Q . UM Extract/Ex_$G.v 2>/dev/null | tr ' ' '\n' | grep '\.vo$' | grep -v '^Extract/' | sort -u | tr '\n' ' ')
+(flock 9; timeout 3000 make -j16 $DEPS > /verif/work/coq_build_$G.log 2>&1) 9>/verif/work/coq.lock || { tail -40 /verif/work/coq_build_$G.log; exit 1; }
 cd /verif/ocaml
-# re-extract only when a model/.vo is newer than the driver
-if [ ! -x bin/um_model ] || [ -n "$(find /verif/coq -name '*.vo' -newer bin/um_model -print -quit)" ] || [ -n "$(find /verif/ocaml -maxdepth 1 -name '*.ml' -newer bin/um_model -print -quit)" ]; then
-  mkdir -p gen bin
-  find gen -type f -delete
-  (cd gen && timeout 600 coqc -Q ../../coq UM ../../coq/Extract/Extract.v > /verif/work/extract.log 2>&1) || { tail -20 /verif/work/extract.log; exit 1; }
-  SRCS=$(cd gen && ocamlfind ocamldep -sort *.mli *.ml)
-  (cd gen && ocamlfind ocamlopt -w -a -O2 -c $SRCS 2>/dev/null || ocamlfind ocamlopt -w -a -c $SRCS)
-  GENCMX=$(cd gen && for f in $(ocamlfind ocamldep -sort *.ml); do echo gen/${f%.ml}.cmx; done)
-  DRV=$(ocamlfind ocamldep -I gen -sort vio.ml d_*.ml driver.ml)
-  ocamlfind ocamlopt -w -a -I gen $GENCMX $DRV -o bin/um_model
+BIN=bin/um_model_$G
+NEED=0
+[ -x $BIN ] || NEED=1
+for f in $DEPS; do [ /verif/coq/$f -nt $BIN ] && NEED=1; done
+for f in vio.ml driver_lib.ml d_$G.ml /verif/coq/Extract/Ex_$G.v; do [ $f -nt $BIN ] && NEED=1; done
+if [ $NEED = 1 ]; then
+  mkdir -p gen_$G bin
+  find gen_$G -type f -delete
+  (cd gen_$G && timeout 900 coqc -Q ../../coq UM -o /verif/work/Ex_$G.vo ../../coq/Extract/Ex_$G.v > /verif/work/extract_$G.log 2>&1) || { tail -20 /verif/work/extract_$G.log; exit 1; }
+  cp vio.ml driver_lib.ml d_$G.ml gen_$G/
+  echo "let () = Driver_lib.main D_$G.run_case" > gen_$G/main_$G.ml
+  cd gen_$G
+  SRCS=$(ocamlfind ocamldep -sort *.mli *.ml)
+  ocamlfind ocamlopt -w -a -O2 $SRCS -o ../$BIN 2>/dev/null || ocamlfind ocamlopt -w -a $SRCS -o ../$BIN
 fi
